@@ -110,6 +110,9 @@ pub struct Net {
     pub default_script: Script,
     /// dial-time network faults (refuse/hang/late, upgrade failures) enabled
     pub faults: bool,
+    /// per-mille rate at which a freshly opened substream is reset at once (its negotiation fails with an I/O error while
+    /// the connection stays up, as with a QUIC/WebRTC stream reset)
+    pub stream_reset_permille: u32,
     /// identity faults (C05) per-mille
     pub auth_fault_permille: u32,
     pub forced_auth: VecDeque<Auth>,
@@ -136,6 +139,7 @@ impl Net {
             scripts: BTreeMap::new(),
             default_script: Script::Default,
             faults: true,
+            stream_reset_permille: 0,
             auth_fault_permille: 0,
             forced_auth: VecDeque::new(),
             auth_log: vec![],
@@ -635,6 +639,10 @@ impl StreamMuxer for SimMuxer {
         self.check(&c)?;
         // multistream-select needs one negotiation flight of buffer per direction
         let (mine, theirs) = pipe::pair_cfg(PipeCfg::draw_min_cap(64 * 1024), PipeCfg::draw_min_cap(64 * 1024));
+        let rate = with_net(|n| n.stream_reset_permille);
+        if rate > 0 && fault("substream_reset_at_open", rate) {
+            mine.ctl().reset();
+        }
         c.streams.push(mine.ctl());
         c.opened[side] += 1;
         c.inbound[1 - side].push_back(theirs);
